@@ -8,7 +8,7 @@
    _partial: histories in which the bitmap does not grow/move (allocations carry IWFSM_ALLOC_NO_EXTEND, no clear, no
    trim on close).  The missing part is the invariant across _fsm_init_lw (bitmap relocation: reload + release of the
    old bitmap area); the model of that path is executable and is compared with the implementation on every run (T2). *)
-Require Import ZArith List Bool. Require Import IW.Lib.CInt IW.Gen.Facts IW.FS.Bits IW.FS.Bits_proofs IW.FS.Fsm IW.FS.Fsm_proofs.
+Require Import ZArith List Bool. Require Import IW.Lib.CInt IW.Gen.Facts IW.FS.Bits IW.FS.Bits_proofs IW.FS.Fsm IW.FS.Fsm_hdr_proofs IW.FS.Fsm_proofs.
 Import ListNotations. Local Open Scope Z_scope.
 
 Theorem C10_alloc_fresh_partial : forall s len addr opts ovr, Inv s -> WF s -> len < 2 ^ 62 ->
@@ -74,6 +74,47 @@ Theorem C10_invalid_release_refused : forall s addr len,
 Proof. exact deallocate_refuses. Qed.
 Print Assumptions C10_invalid_release_refused.
 
+(* The boundary of the addressable space.  _fsm_set_bit_status_lw - the one routine behind allocate, release, the shrinking
+   reallocate, status queries and the strict read/write probes - accepts a range iff it ends at or before the LAST BIT of
+   the bitmap (bmlen * 8): the guard is bit-exact, one block too far is refused, whatever the other arguments ... *)
+Theorem C10_range_guard_exact : forall s off len v dry,
+  (off + len <= nbits s -> fst (set_bit_status s off len v dry false) = 0) /\
+  (nbits s < off + len -> forall chk, set_bit_status s off len v dry chk = (IWFS_ERROR_FSM_SEGMENTATION, s)).
+Proof. exact set_bit_status_guard. Qed.
+Print Assumptions C10_range_guard_exact.
+
+(* ... so a release whose range ends behind the last block the bitmap describes (starting inside, at the end or beyond;
+   aligned or not; strict or not; every variant of the code) is refused and NOTHING changes: bitmap, free-extent tree,
+   cache, geometry, file size, counters, header *)
+Theorem C10_release_beyond_end_refused : forall s addr len, nbits s < shr addr (bpow s) + shr len (bpow s) ->
+  fst (deallocate s addr len) <> 0 /\ snd (deallocate s addr len) = s.
+Proof. exact release_beyond_end_refused. Qed.
+Print Assumptions C10_release_beyond_end_refused.
+
+(* the shrinking branch of reallocate releases [addr + new length, addr + old length): same refusal, same "nothing changes" *)
+Theorem C10_shrink_beyond_end_refused : forall s nlen addr olen opts ovr,
+  Z.land addr (blkmask s) = 0 -> Z.land olen (blkmask s) = 0 ->
+  shr (IW_ROUNDUP nlen (pow2 (bpow s))) (bpow s) < shr olen (bpow s) ->
+  nbits s < shr addr (bpow s) + shr olen (bpow s) ->
+  let '(rc, s', a, l) := reallocate s nlen addr olen opts ovr in rc <> 0 /\ s' = s /\ a = addr /\ l = olen.
+Proof. exact shrink_beyond_end_refused. Qed.
+Print Assumptions C10_shrink_beyond_end_refused.
+
+Theorem C10_status_beyond_end_refused : forall s addr len al, nbits s < shr addr (bpow s) + shr len (bpow s) ->
+  check_allocation_status s addr len al <> 0.
+Proof. exact status_beyond_end_refused. Qed.
+Print Assumptions C10_status_beyond_end_refused.
+
+(* on a concrete full file (64-byte blocks, 32768 of them, mmap_all, everything allocated; corpus/C10/release-past-end.txt
+   is the same script on the implementation): the last block of the space is block 32767; releasing [32767, 32769) or
+   [32768, 32769) is refused, releasing [32767, 32768) - inside the space - is accepted *)
+Example C10_boundary_on_full_file :
+  let s := full_file_state in
+  nbits s = 32768 /\ tree s = [] /\
+  deallocate s 2097088 128 = (IWFS_ERROR_FSM_SEGMENTATION, s) /\ deallocate s 2097152 64 = (IWFS_ERROR_FSM_SEGMENTATION, s) /\
+  fst (deallocate s 2097088 64) = 0 /\ tree (snd (deallocate s 2097088 64)) = [(1, 32767)].
+Proof. exact boundary_on_full_file. Qed.
+
 (* strict mode, model of the code after fixes/fsm-strict-dealloc.diff *)
 Theorem C10_strict_release_refused : forall s a m, fx_strict (vr s) = true -> strict s = true ->
   0 <= a -> 0 <= m -> a + m <= nbits s -> len_z (bm s) = nbits s ->
@@ -99,7 +140,9 @@ Theorem C10_short_release_refused_refuted : exists s addr len, shr len (bpow s) 
 Proof. exact short_release_refused_refuted. Qed.
 Print Assumptions C10_short_release_refused_refuted.
 
-Theorem C10_every_history_good_partial : forall ops s, Good s -> ok_run s ops -> Good (run s ops).
+(* [hdr_current s]: the file header names the bitmap area in use (true of every new or reopened file and kept by every
+   operation: C11_header_current_step); needed because these histories close and reopen the file *)
+Theorem C10_every_history_good_partial : forall ops s, Good s -> hdr_current s = true -> ok_run s ops -> Good (run s ops).
 Proof. exact run_good. Qed.
 Print Assumptions C10_every_history_good_partial.
 
